@@ -834,7 +834,7 @@ private theorem msgDeltas_runFrom (cfg : Cfg) : ∀ (lines : List Line) (st : St
       have h3' : (updMeta cfg st c).outTok = (match c.usage with | some (p, q) => (p.getD st.inTok, q.getD st.outTok) | none => (st.inTok, st.outTok)).2 := by
         rw [← hU]
       rw [h2', h3']
-      simp only [Prod.mk.eta]
+      rfl
 
 /-- **Stop reason and usage**: the stream carries exactly one message_delta; its stop_reason is
     the compiled table's translation of the LAST non-empty finish_reason the backend sent and
